@@ -114,7 +114,9 @@ structure ClassSet where
   cps : CPS.IvList := []
   alts : List (List Nat) := []
 
-/-- `enum ClassSetOperand`. -/
+/-- `enum ClassSetOperand`: `ClassSetCharacter`, `CharacterClassEscape`, `Class`,
+`ClassStringDisjunction` (the last is produced only by `\p{<property of strings>}`; `\q{…}` yields
+a `Class`). -/
 inductive Operand where
   | char (c : Nat)
   | esc (cps : CPS.IvList)
